@@ -141,6 +141,13 @@ def record_path(model, X, y=None, script=None, frac=None, max_calls=4000, call=N
         elif st["phase"] == "outer" and st["epochs"] == 0:
             e["alphaok"] = bool(clf.alpha == st["alpha"])
             st.update(val=s, val_l1=l1, i=0, pat=0, phase="inner")
+            if clf.dynamic and ya is None:
+                # dynamic mode: during this step the model trains with the affinity of the currently selected variables only
+                sel_now = clf.get_selection()
+                try:
+                    tr.full_affinity = None if len(sel_now) == 0 else np.asarray(gem.compute_affinity(np.asarray(Xa)[:, sel_now]), dtype=float)
+                except Exception:
+                    tr.full_affinity = None
         else:
             e["alphaok"] = bool(clf.alpha == st["alpha"])
             l1imp = bool(l1 < esf * st["val_l1"])
